@@ -8,7 +8,7 @@ run 4 Z A R &
 run 5 S T U &
 run 6 V P Q &
 run 7 M N K J &
-run 8 L H G &
+run 8 L H G F &
 wait
 { head -4 SWEEP_1.md; for i in 1 2 3 4 5 6 7 8; do tail -n +5 SWEEP_$i.md; done; } > SWEEP.md
 echo "sweep done: $(grep -c '| caught |' SWEEP.md) caught, $(grep -c 'NOT CAUGHT\|DOES NOT APPLY' SWEEP.md) not"
